@@ -51,6 +51,7 @@ for i, sd in enumerate(SUBS):
         if present[k] and gone != i:
             open(os.path.join(ch, sd, name), 'w').close(); allf.append((t - T0, os.path.join(ch, sd, name)))
         k += 1
+if kw.get('stray') and gone != 1: open(os.path.join(ch, SUBS[1], 'tmp.metadata@%%d.h5' %% (T0 + 3605)), 'w').close()
 st = None if start is None else datetime.timedelta(seconds=T0 + start)
 en = None if end is None else datetime.timedelta(seconds=T0 + end)
 props = ['drf_properties.h5'] if kind == 0 else ['dmd_properties.h5']
@@ -79,6 +80,9 @@ for _k, _kn in ((0, 'RF'), (1, 'metadata')):
         TITLES['_listing_fwd_' + _tag] = ('%s channel listing, %s: exactly the in-window files ascending%s, never raises, timestamped subdirs pruned from the walk'
                                           % (_kn, _gs, ' + latest earlier file for forward fill' if _k else ''))
         TITLES['_listing_rev_' + _tag] = '%s channel, %s: reverse listing == forward listing reversed (same set)' % (_kn, _gs)
+        if _k == 1 and _g != 1:
+            for _d in ('fwd', 'rev'):
+                TITLES['_listing_%s_%s_stray' % (_d, _tag)] = TITLES['_listing_%s_%s' % (_d, _tag)] + "; a stray 'tmp.' file lies in subdirectory 1"
 
 
 def grammar(rep, st):
@@ -129,7 +133,7 @@ def main(tier):
                'file and subdirectory names in the harness trees are concrete (their grammar is decided separately by the regex obligations)')
     rep.outside_claim('more than 3 subdirectories / 2 files per subdirectory per harness', 'symlink loops, permission errors')
     grammar(rep, st)
-    T = 420 if tier == 'quick' else 1800
+    T = 900 if tier == 'quick' else 2400
     res = chx.run_module('listing', per_condition_timeout=T, nproc=16)
     replays = {'_slice3': lambda kw: REPLAY_SLICE % (dict(dec=[(kw['t0'], 'a'), (kw['t0'] + kw['d1'], 'b'), (kw['t0'] + kw['d1'] + kw['d2'], 'c')], start=kw['start'], end=kw['end'], ffill=kw['ffill']),),
                '_slice_small': lambda kw: REPLAY_SLICE % (dict(dec=[(kw['t0'], 'a'), (kw['t0'] + kw['d1'], 'b')][:kw['n']], start=kw['start'], end=kw['end'], ffill=kw['ffill']),)}
@@ -141,5 +145,7 @@ def main(tier):
                 nm = '_listing_%s_%s' % ('rev' if rev else 'fwd', tag)
                 replays[nm] = (lambda k2, g2, r2: (lambda kw: REPLAY_LISTING % (dict(kw, kind=k2, gone=g2), r2)))(k_, g_, rev)
                 sigs[nm] = 'C14.listing.%s' % ('reverse_set' if rev else 'forward')
+                replays[nm + '_stray'] = (lambda k2, g2, r2: (lambda kw: REPLAY_LISTING % (dict(kw, kind=k2, gone=g2, stray=True), r2)))(k_, g_, rev)
+                sigs[nm + '_stray'] = sigs[nm]
     chx.report(rep, res, TITLES, replays=replays, sigs=sigs)
     return rep.finish()
